@@ -43,8 +43,9 @@ func subset(r *Rng, pool []string) []string {
 			out = append(out, x)
 		} else if r.Chance(1, 9) {
 			// an entry that only resembles a name requests use: surrounding white space (a YAML block scalar keeps its newline),
-			// another case, a trailing dot. User names may be any string; an entry matches the request value that EQUALS it
-			out = append(out, pick(r, []string{x + "\n", " " + x, x + " ", "\t" + x, strings.ToUpper(x[:1]) + x[1:], x + ".", x + "\u00a0"}))
+			// another case, a trailing dot or slash (printable ASCII and the named escapes only: the texts that quote
+			// names are compared byte for byte, and the model's %q covers that alphabet). User names may be any string; an entry matches the request value that EQUALS it
+			out = append(out, pick(r, []string{x + "\n", " " + x, x + " ", "\t" + x, strings.ToUpper(x[:1]) + x[1:], x + ".", x + "/"}))
 		}
 	}
 	if r.Chance(1, 8) {
